@@ -456,6 +456,13 @@ func malform(rng *rand.Rand, args []string) []string {
 // arguments that would make objects expire during the run, or leave the modelled SCAN shapes
 func risky(args []string) bool {
 	up := strings.ToUpper(args[0])
+	// a collection named "" cannot be listed (SCAN "" is an arity error), so the dump could not see it
+	if len(args) > 1 && args[1] == "" {
+		return true
+	}
+	if (up == "RENAME" || up == "RENAMENX") && len(args) > 2 && args[2] == "" {
+		return true
+	}
 	for i, a := range args {
 		la := strings.ToLower(a)
 		if (la == "ex" && up == "SET") && i+1 < len(args) {
@@ -470,6 +477,14 @@ func risky(args []string) bool {
 		}
 	}
 	return false
+}
+
+func litPrefixEndsFF(p string) bool {
+	n := 0
+	for n < len(p) && !strings.ContainsRune("[*?\\", rune(p[n])) {
+		n++
+	}
+	return n > 0 && p[n-1] == 0xFF
 }
 
 func isWrite(cmd string) bool {
@@ -553,13 +568,19 @@ func (t *tester) runProgram(m *mdl, prog [][]string, label string) (nontrivial b
 			r.Dist("unmodelled")
 			continue
 		}
-		if gi != mi {
-			fail("correspondence", "reply-"+cmd, fmt.Sprintf("reply of %s differs from Model.Keyspace.exec", strings.Join(quoteProg([][]string{args}), "")), i, pretty(got), pretty(mr.impl))
-			return false
-		}
 		if gi != si {
 			sig := "spec-reply-" + cmd
+			if (cmd == "pdel" && len(args) == 3 && litPrefixEndsFF(args[2])) || (cmd == "keys" && len(args) == 2 && litPrefixEndsFF(args[1])) {
+				sig += "-prefix-ff"
+			}
 			fail("oracle", sig, fmt.Sprintf("reply of %s is not the reply of the plain-map specification", strings.Join(quoteProg([][]string{args}), "")), i, pretty(got), pretty(mr.spec))
+			if gi != mi {
+				fail("correspondence", "reply-"+cmd, fmt.Sprintf("reply of %s differs from Model.Keyspace.exec", strings.Join(quoteProg([][]string{args}), "")), i, pretty(got), pretty(mr.impl))
+			}
+			return false
+		}
+		if gi != mi {
+			fail("correspondence", "reply-"+cmd, fmt.Sprintf("reply of %s differs from Model.Keyspace.exec", strings.Join(quoteProg([][]string{args}), "")), i, pretty(got), pretty(mr.impl))
 			return false
 		}
 		if !mr.absEq {
@@ -753,6 +774,7 @@ func runC01(r *hx.Result, cfg hx.Config) {
 		{S("SET", "f", "s", "FIELD", "a", "1", "STRING", "hello"), S("SET", "f", "s", "POINT", "1", "1"), S("GET", "f", "s", "WITHFIELDS"), S("SET", "f", "s", "NX", "POINT", "2", "2"), S("SET", "g", "s", "XX", "POINT", "2", "2"), S("KEYS", "*"), S("SET", "g", "s", "NX", "POINT", "2", "2"), S("DEL", "g", "s"), S("KEYS", "*"), S("TYPE", "g")},
 		{S("JSET", "j", "d", "a.b", "5"), S("JGET", "j", "d"), S("JGET", "j", "d", "a", "RAW"), S("JDEL", "j", "d", "a.b"), S("JDEL", "j", "d", "nope"), S("JDEL", "j", "nokey", "a"), S("JDEL", "nocol", "d", "a"), S("GET", "j", "d")},
 		{S("SET", "f", "a", "POINT", "1", "1"), S("SET", "f", "b", "POINT", "1", "1"), S("SET", "f", "ab", "POINT", "1", "1"), S("PDEL", "f", "a*"), S("SCAN", "f", "IDS"), S("PDEL", "f", "*"), S("KEYS", "*"), S("PDEL", "f", "*")},
+		{S("SET", "k", "ab\xff\x01", "STRING", "a"), S("SET", "k", "ab", "STRING", "a"), S("PDEL", "k", "ab\xff*"), S("SCAN", "k", "IDS")},
 		{S("SET", "f", "a", "RETURN", "x", "WITHFIELDS", "POINT", "1", "1"), S("SET", "f", "a", "RETURN", "HASH"), S("SET", "f", "a", "RETURN", "HASH", "0", "POINT", "1", "1"), S("SET", "f", "a", "POINT", "1", "1", "RETURN"), S("SET", "f", "a", "POINT", "1", "1", "RETURN", "POINT", "BOUNDS", "HASH", "3", "WITHFIELDS"), S("FSET", "f", "a", "RETURN", "RETURN", "p", "1")},
 	}
 	for i, p := range corpus {
